@@ -136,8 +136,16 @@ def extractScoped (cr : Crypto) (c : Creds) (m : Spec.V3Msg) : Except Err Spec.S
 def checkLevel (c : Creds) (m : Spec.V3Msg) : Except Err Unit :=
   if (c.auth.isSome && !authFlag m) || (c.priv.isSome && !privFlag m) then .error .unsupportedLevel else .ok ()
 
-/-- `UserSecurityModel.process_incoming_message` -/
+/-- `Message.decode` / `from_sequence`: without the priv flag the payload is taken apart as a
+    scoped PDU sequence at once — an OCTET STRING there is a TypeError before anything else happens -/
+def shapeCheck (m : Spec.V3Msg) : Except Err Unit :=
+  if m.dataTag == 4 && !privFlag m then .error (.other "TypeError") else .ok ()
+
+/-- `V3MPM.decode`: `Message.decode` followed by `UserSecurityModel.process_incoming_message` -/
 def processIncoming (cr : Crypto) (c : Creds) (im : InMsg) : Except Err Spec.ScopedPdu :=
+  match shapeCheck im.m with
+  | .error e => .error e
+  | .ok _ =>
   match checkUser c im.m with
   | .error e => .error e
   | .ok _ =>
